@@ -99,12 +99,18 @@ def run(ctx):
     except core.ModelEvalError as e:
         ctx.broken.append({"kind": "correspondence", "name": "S-z3-soft", "detail": str(e)[-600:]})
 
-    def monitor(name, in_type, fn, cases, wh, what, known_sig=None):
+    def monitor(name, in_type, fn, cases, wh, what, known_sig=None, only=None):
+        idx = list(range(len(cases))) if only is None else sorted(only)
+        if not idx:
+            return []
         try:
-            bad = ctx.monitor_stream(name, Z.HEADER, in_type, fn, cases, shard=120) if cases else []
+            bad = ctx.monitor_stream(name, Z.HEADER, in_type, fn, [cases[k] for k in idx], shard=150)
         except core.ModelEvalError as e:
             ctx.broken.append({"kind": "monitor", "name": name, "detail": str(e)[-500:]})
-            return
+            return []
+        bad = [idx[b] for b in bad]
+        if what is None:
+            return bad
         nk = 0
         shown = 0
         for b in bad:
@@ -120,12 +126,14 @@ def run(ctx):
                     rep["point"] = wh[b][1]
                 ctx.violation("%s_%d" % (name.replace("-", ""), b), rep)
         dist[name + "_failing_under_known_signature"] = nk
+        return bad
 
+    # the strict form implies the exempting one: c12_ok is evaluated only where the strict form fails
+    strict_bad = monitor("S-z3-c12-strict", "instance * list (var * Z)", "(fun p => c12_strict_ok (fst p) (asg_of (snd p)))",
+                         opt_pts, opt_where, "under enforce_deadlines a placed task misses its deadline", known_sig=sig_hopeless)
     monitor("S-z3-c12", "instance * list (var * Z)", "(fun p => c12_ok (fst p) (asg_of (snd p)))", opt_pts, opt_where,
             "under enforce_deadlines the optimum returned by z3 places a task past its deadline although some admissible "
-            "start time meets the deadline")
-    monitor("S-z3-c12-strict", "instance * list (var * Z)", "(fun p => c12_strict_ok (fst p) (asg_of (snd p)))", opt_pts, opt_where,
-            "under enforce_deadlines a placed task misses its deadline", known_sig=sig_hopeless)
+            "start time meets the deadline", only=strict_bad)
     monitor("S-z3-softopt", "instance * (list (var * Z) * list (list (var * Z)))",
             "(fun p => soft_opt_ok (fst p) (asg_of (fst (snd p))) (map asg_of (snd (snd p))))", so_cases, so_where,
             "a feasible point of the asserted system violates less soft-row weight than the optimum z3 returned")
